@@ -1,4 +1,5 @@
 """C42 - lint results do not depend on parallelism or completion order."""
+import atexit
 import gc
 import json
 import os
@@ -14,38 +15,53 @@ from .. import lintgen
 
 ID = 'C42'
 LEVEL = 'exploration'
-TECHNIQUE = ('generated file sets linted through loki.lint.lint_files (the loki-lint driver path) with max_workers in {1,2,3,8} and '
+TECHNIQUE = ('generated file sets linted through loki.lint.lint_files (the loki-lint driver path) with max_workers in {2,3,4,8} and '
              'generated per-file delay plans executed by a lint rule of ours (DelayRule), so completion order is a generated value; '
              'metamorphic oracle against the serial run on three observation points (JUnit XML, violations YAML, own picklable '
-             'handler) + ground-truth file selection and parse status')
-RULE = ('a case is a file set (5-40 files in nested directories: files with violations of the real IFS rules, clean files, files that '
-        'fail to parse in 4 ways, files excluded by pattern) x 1-3 schedules (workers, per-file delay 0-50 ms); one evaluation = one '
-        'schedule. non-trivial = workers >= 2, >= 1 selected file that fails to parse, and the delay plan makes a later-submitted file '
-        'finish before an earlier one (list-scheduling simulation of the plan); distinct by (file set, include patterns, workers, plan)')
+             'handler), all read at the moment lint_files returns, + ground-truth file selection and parse status')
+RULE = ('a case is one file set (quick 5-12, thorough 5-40 files in nested directories: files with violations of the real IFS rules, '
+        'clean files, files that fail to parse in 4 ways, files excluded by pattern, optionally two overlapping include patterns, '
+        'violations file with or without line hashes) linted once serially (the reference) and then under 3 (thorough 4) schedules = '
+        '(max_workers, per-file delay plan); one evaluation = one schedule. CONTROLLED: the set of files, the worker count and the '
+        'duration of every lint task that parses (DelayRule sleeps 0/40/120/240 ms by a generated permutation, which dominates the '
+        'lint time of a file), hence which tasks overlap and the order in which they complete. NOT CONTROLLED: the OS scheduler, i.e. '
+        'the interleaving of the individual manager-proxy round trips of two workers that finish at nearly the same time (plans with '
+        'equal delays provoke such ties but do not enumerate their interleavings), and the duration of tasks on files that fail to '
+        'parse (no rule ever runs on them). non-trivial = workers >= 2, >= 1 selected file that fails to parse, and the plan makes a '
+        'later-submitted file finish before an earlier one (list-scheduling simulation of the plan); distinct by (file set, include '
+        'patterns, workers, plan)')
 ASSUMPTIONS = [
     'the harness controls per-task duration, not OS scheduling; completion orders are explored, interleavings of the manager proxies are not enumerated',
-    'violations are compared as multisets of (rule, message incl. line) per file; order inside a file report and timing attributes are ignored',
+    'violations are compared as multisets of (rule, message incl. line) per file; order inside a file report, order of the file reports and timing attributes are ignored',
     'which files are selected and which fail to parse is known from the generator (checked against the serial run)',
+    'report files are read when lint_files returns (what a caller of the API can rely on after 709afba), not after interpreter exit',
 ]
-SHARDS = {'quick': 4, 'thorough': 4}
-BUDGET = {'quick': 70, 'thorough': 1500}
+SHARDS = {'quick': 8, 'thorough': 8}
+BUDGET = {'quick': 90, 'thorough': 1500}
 
-WORKERS = [2, 3, 8, 1]
+WORKERS = [2, 3, 4, 8]
+LEVELS = [240, 120, 40, 0]      # ms; a lint task on one of the generated files takes ~20-100 ms on an idle box
 
 
 @st.composite
-def cases(draw, thorough):
-    n = draw(st.integers(5, 40 if thorough else 9))
-    files = [draw(lintgen.lint_file(i)) for i in range(n)]
-    ns = draw(st.integers(1, 3 if thorough else 2))
+def cases(draw, thorough, shard=0):
+    """
+    Everything is drawn as an offset into a rotation that starts at the shard number: the simplest example of Hypothesis
+    (which every shard evaluates first, and a quick shard evaluates only ~3 file sets) is then a mixed file set with a
+    submission-order-inverting plan, and a different one in every shard.
+    """
+    span = 36 if thorough else 8
+    n = 5 + (shard + draw(st.integers(0, span - 1))) % span
+    files = [draw(lintgen.lint_file(i, rot=shard)) for i in range(n)]
+    ns = 4 if thorough else 3
     schedules = []
-    levels = [50, 20, 5, 0]
-    for _ in range(ns):
-        # the delay of a file follows its rank in a generated permutation (identity: first submitted = slowest)
+    for k in range(ns):
+        # the delay of a file follows its rank in a generated permutation (identity: first file = slowest)
         perm = draw(st.permutations(list(range(n))))
-        schedules.append({'workers': draw(st.sampled_from(WORKERS)),
-                          'delays': [levels[perm[i] * len(levels) // n] for i in range(n)]})
-    return {'files': files, 'overlap': draw(st.integers(0, 4)) == 0, 'schedules': schedules}
+        schedules.append({'workers': WORKERS[(shard + k + draw(st.integers(0, len(WORKERS) - 1))) % len(WORKERS)],
+                          'delays': [LEVELS[perm[i] * len(LEVELS) // n] for i in range(n)]})
+    return {'files': files, 'overlap': (shard + draw(st.integers(0, 3))) % 4 == 0,
+            'line_hashes': (shard + draw(st.integers(0, 2))) % 3 != 0, 'schedules': schedules}
 
 
 # --------------------------------------------------------------------------
@@ -62,7 +78,7 @@ def _rules():
 
 
 def _cleanup_children():
-    """no process may outlive a case: the Manager that loki starts is only shut down by its finalizer"""
+    """no process may outlive a lint run: the Manager that loki starts is only shut down by its finalizer"""
     import multiprocessing
     left = multiprocessing.active_children()
     for p in left:
@@ -72,33 +88,76 @@ def _cleanup_children():
     return len(left)
 
 
+def include_patterns(case):
+    return ['**/*.F90', '**/*.f90'] + (['sub/*.F90'] if case.get('overlap') else [])
+
+
 def run_lint(src, outdir, case, workers, plan):
-    """-> dict(count, exc, junit, yaml, collect, leftover)"""
+    """
+    One lint_files call in a process of its own (forked from this one, which has loki imported but never lints), the way
+    loki-lint runs it: no state of an earlier run (rule classes, logging set-up, worker initialisation flag, left-over manager)
+    can reach a later one, and nothing the run leaves behind survives it.
+    -> dict(count, exc, exc_sig, junit, yaml, collect, incomplete, leftover)
+    """
+    import multiprocessing
+    import pickle
+    os.makedirs(outdir)
+    respath = os.path.join(outdir, 'result.pkl')
+    proc = multiprocessing.get_context('fork').Process(target=_lint_child, args=(src, outdir, case, workers, plan, respath))
+    proc.start()
+    proc.join()
+    if not os.path.exists(respath):
+        raise RuntimeError(f'lint process ended with exit code {proc.exitcode} and left no result')
+    with open(respath, 'rb') as f:
+        return pickle.load(f)
+
+
+def _lint_child(src, outdir, case, workers, plan, respath):
+    import pickle
+    import traceback
+    try:
+        res = _lint(src, outdir, case, workers, plan)
+        with open(respath + '.tmp', 'wb') as f:
+            pickle.dump(res, f)
+        os.rename(respath + '.tmp', respath)
+    except BaseException:  # noqa: our own error: visible in the shard log, the parent raises
+        traceback.print_exc()
+    finally:
+        _cleanup_children()
+        os._exit(0)      # skip the exit handlers inherited from the parent (Hypothesis, scratch removal)
+
+
+def _lint(src, outdir, case, workers, plan):
     from loki.lint import lint_files
     from ..delayrule import CollectHandler
-    os.makedirs(outdir)
-    include = ['**/*.F90', '**/*.f90'] + (['sub/*.F90'] if case['overlap'] else [])
     cfg = {
-        'basedir': src, 'include': include, 'exclude': ['**/skip_*'], 'max_workers': workers,
+        'basedir': src, 'include': include_patterns(case), 'exclude': ['**/skip_*'], 'max_workers': workers,
         'junitxml_file': os.path.join(outdir, 'junit.xml'), 'violations_file': os.path.join(outdir, 'violations.yml'),
+        'use_violations_file_line_hashes': bool(case.get('line_hashes', True)),
         'DelayRule': {'plan': dict(plan)},
     }
-    res = {'exc': None, 'count': None}
+    res = {'exc': None, 'exc_sig': None, 'count': None}
     try:
         res['count'] = lint_files(_rules(), cfg, handlers=[CollectHandler(os.path.join(outdir, 'collect.json'), basedir=src)])
     except Exception as e:  # noqa: data for the oracle
-        res['exc'] = e
+        res['exc'] = repr(e)[:500]
+        res['exc_sig'] = exc_bucket(e)
+
     def slurp():
         out = {}
         for k in ('junit.xml', 'violations.yml'):
             p = os.path.join(outdir, k)
-            out[k] = open(p).read() if os.path.exists(p) else None
+            if os.path.exists(p):
+                with open(p) as f:
+                    out[k] = f.read()
+            else:
+                out[k] = None
         return out
 
     at_return = slurp()      # what a caller sees when lint_files returns
     final = at_return
     if res['exc'] is None and (not at_return['junit.xml'] or not at_return['violations.yml']):
-        gc.collect()         # the lazily opened report files are only closed by their finalizer
+        gc.collect()         # lazily opened report files are closed by a finalizer at the latest
         final = slurp()
     res['leftover'] = _cleanup_children()
     res['junit'] = res['yaml'] = res['collect'] = None
@@ -140,6 +199,8 @@ def parse_yaml(text):
         data = yaml.safe_load(block)
         for name, val in data.items():
             c = Counter()
+            if 'filehash' in val:
+                c[('filehash', val['filehash'])] += 1
             for r in val.get('rules', []):
                 if isinstance(r, dict):
                     for rn, hashes in r.items():
@@ -175,72 +236,85 @@ def plan_inverts(order, delays_by_name, workers):
     return any(fin[j] < fin[i] for i in range(len(fin)) for j in range(i + 1, len(fin)))
 
 
-def check_case(case, ctx):
-    scratch = os.environ.get('LOKIVERIF_SCRATCH') or os.environ.get('TMPDIR') or '/tmp'
-    root = os.path.join(scratch, f'c42.{os.getpid()}')
+_ROOT = []
+
+
+def _scratch_root():
+    """one scratch directory per process (= per shard), emptied before every case, removed at exit"""
+    if not _ROOT:
+        scratch = os.environ.get('LOKIVERIF_SCRATCH') or os.environ.get('TMPDIR') or '/tmp'
+        root = os.path.join(scratch, f'c42.{os.getpid()}')
+        _ROOT.append(root)
+        atexit.register(shutil.rmtree, root, True)
+    root = _ROOT[0]
     shutil.rmtree(root, ignore_errors=True)
-    src = os.path.join(root, 'src')
-    os.makedirs(src)
-    try:
-        _check(case, ctx, root, src)
-    finally:
-        shutil.rmtree(root, ignore_errors=True)
+    os.makedirs(os.path.join(root, 'src'))
+    return root
+
+
+def check_case(case, ctx):
+    root = _scratch_root()
+    _check(case, ctx, root, os.path.join(root, 'src'))
 
 
 def _check(case, ctx, root, src):
     files = case['files']
+    line_hashes = bool(case.get('line_hashes', True))
     rel = [lintgen.lint_file_relpath(f) for f in files]
     for f, r in zip(files, rel):
         p = os.path.join(src, r)
         os.makedirs(os.path.dirname(p), exist_ok=True)
         with open(p, 'w') as fh:
             fh.write(lintgen.render_lint_file(f))
-    selected = sorted(r for f, r in zip(files, rel) if f['selected'])
+    # find_paths sorts Path objects, i.e. by path components
+    selected = sorted((r for f, r in zip(files, rel) if f['selected']), key=lambda r: r.split('/'))
     broken = {r for f, r in zip(files, rel) if f['selected'] and f['kind'] == 'broken'}
     # files matched by two include patterns
-    twice = {r for r in selected if case['overlap'] and os.path.dirname(r) == 'sub' and r.endswith('.F90')}
+    twice = {r for r in selected if case.get('overlap') and os.path.dirname(r) == 'sub' and r.endswith('.F90')}
 
-    def fail(sig, detail):
-        ctx.fail(sig, case, detail)
+    def fail(sig, detail, sch=None):
+        # the stored case holds the one schedule that failed (none: the serial reference run failed)
+        ctx.fail(sig, {'files': files, 'overlap': bool(case.get('overlap')), 'line_hashes': line_hashes,
+                       'schedules': [sch] if sch else []}, detail)
 
-    def judge_run(res, mode):
+    def judge_run(res, mode, sch):
         """selection / once-only / count against the generator's ground truth"""
         if res['exc'] is not None:
-            fail(f'C42:lint-raises:{mode}:{exc_bucket(res["exc"])}', repr(res['exc'])[:500])
+            fail(f'C42:lint-raises:{mode}:{res["exc_sig"]}', res['exc'], sch)
             return False
         # files whose report is an error report (parse failure, or a rule that raised) do not count as checked
         errfiles = {n for n, c in res['collect'] if any(rule.endswith('Error') for rule, _, _ in c)}
         missing = sorted(broken - errfiles)
-        if missing:
+        if missing and all(n in {x for x, _ in res['collect']} for n in missing):
             raise RuntimeError(f'generator ground truth wrong: {missing} should fail to parse but has no error report')
         expect = len(selected) - len(errfiles)
         if res['count'] != expect:
             tw = len([r for r in twice if r not in errfiles])
             why = ':overlapping-include-patterns' if tw and res['count'] == expect + tw else ''
             fail(f'C42:checked-count:{mode}{why}',
-                 f'lint_files returned {res["count"]}; {len(selected)} files selected, {len(errfiles)} of them with an error report')
+                 f'lint_files returned {res["count"]}; {len(selected)} files selected, {len(errfiles)} of them with an error report', sch)
         for what in res['incomplete']:
-            fail(f'C42:report-file-incomplete-when-lint_files-returns:{mode}', what)
+            fail(f'C42:report-file-incomplete-when-lint_files-returns:{mode}', what, sch)
         for obs in ('junit', 'collect'):
             if res[obs] is None:
                 continue
             names = Counter(n for n, _ in res[obs])
             for r in selected:
                 if names[r] == 0:
-                    fail(f'C42:file-not-reported:{obs}:{mode}', f'{r} is selected but has no report')
+                    fail(f'C42:file-not-reported:{obs}:{mode}', f'{r} is selected but has no report', sch)
                 elif names[r] > 1:
                     why = ':overlapping-include-patterns' if r in twice and names[r] == 2 else ''
-                    fail(f'C42:file-reported-more-than-once:{obs}:{mode}{why}', f'{r} has {names[r]} reports')
+                    fail(f'C42:file-reported-more-than-once:{obs}:{mode}{why}', f'{r} has {names[r]} reports', sch)
             for n in names:
                 if n not in selected:
-                    fail(f'C42:unselected-file-reported:{obs}:{mode}', f'{n} was not selected by the patterns')
+                    fail(f'C42:unselected-file-reported:{obs}:{mode}', f'{n} was not selected by the patterns', sch)
         ynames = Counter(n for n, _ in res['yaml'] or [])
         for n, k in ynames.items():
             if k > 1:
                 why = ':overlapping-include-patterns' if n in twice and k == 2 else ''
-                fail(f'C42:file-reported-more-than-once:yaml:{mode}{why}', f'{n} has {k} blocks in the violations file')
+                fail(f'C42:file-reported-more-than-once:yaml:{mode}{why}', f'{n} has {k} blocks in the violations file', sch)
             if n not in selected:
-                fail(f'C42:unselected-file-reported:yaml:{mode}', f'{n} was not selected by the patterns')
+                fail(f'C42:unselected-file-reported:yaml:{mode}', f'{n} was not selected by the patterns', sch)
         return True
 
     def per_file(obs_list):
@@ -252,13 +326,16 @@ def _check(case, ctx, root, src):
     ref = run_lint(src, os.path.join(root, 'ref'), case, 1, {})
     if ref['leftover']:
         ctx.count('hygiene:child-process-left-after-lint', ref['leftover'])
-    ref_ok = judge_run(ref, 'serial')
+    ref_ok = judge_run(ref, 'serial', None)
     if ref_ok:
         nerr = sum(1 for n, c in ref['collect'] if n not in broken and any(rule.endswith('Error') for rule, _, _ in c))
         if nerr:
             ctx.count('serial:file-where-a-rule-raised', nerr)
+        ctx.count('serial:violations-per-fileset:%s' % _bucket(sum(sum(c.values()) for _, c in ref['collect'])))
 
     for si, sch in enumerate(case['schedules']):
+        if si and ctx.out_of_time():
+            break
         w = sch['workers']
         plan = {os.path.basename(r): d for r, d in zip(rel, sch['delays'])}
         order = [os.path.basename(r) for r in selected if r not in broken]
@@ -266,19 +343,25 @@ def _check(case, ctx, root, src):
         nontrivial = bool(w >= 2 and broken and inverts)
         classes = [f'workers:{w}', 'has-unparsable-file' if broken else 'all-files-parse',
                    'plan:inverts-submission-order' if inverts else 'plan:keeps-submission-order',
-                   f'files:{len(selected) // 10 * 10}-{len(selected) // 10 * 10 + 9}']
+                   f'files:{len(selected) // 5 * 5}-{len(selected) // 5 * 5 + 4}',
+                   'violations-file:line-hashes' if line_hashes else 'violations-file:file-hash']
+        if len(set(plan[n] for n in order)) < len(order):
+            classes.append('plan:has-equal-delays')
         if twice:
             classes.append('include-patterns:overlapping')
         if any(not f['selected'] for f in files):
             classes.append('has-excluded-file')
         if any(f['kind'] == 'clean' and f['selected'] for f in files):
             classes.append('has-clean-file')
-        ctx.case({'files': files, 'overlap': case['overlap'], 'schedule': sch}, nontrivial, classes)
+        for bk in sorted({f['broken'] for f in files if f['selected'] and f['kind'] == 'broken'}):
+            classes.append(f'unparsable:{bk}')
+        ctx.case({'files': files, 'overlap': bool(case.get('overlap')), 'line_hashes': line_hashes, 'schedule': sch},
+                 nontrivial, classes)
         res = run_lint(src, os.path.join(root, f'run{si}'), case, w, plan)
         if res['leftover']:
             ctx.count('hygiene:child-process-left-after-lint', res['leftover'])
         mode = 'serial' if w == 1 else 'parallel'
-        ok = judge_run(res, mode)
+        ok = judge_run(res, mode, sch)
         if not (ok and ref_ok):
             continue
         got_order = [n for n, _ in res['collect']]
@@ -293,19 +376,31 @@ def _check(case, ctx, root, src):
                     continue      # reported separately
                 if a.get(n, Counter()) != b.get(n, Counter()):
                     kind = 'unparsable-file' if n in broken else 'violations'
-                    da = list((a.get(n, Counter()) - b.get(n, Counter())).items())[:2]
-                    db = list((b.get(n, Counter()) - a.get(n, Counter())).items())[:2]
+                    da = sorted((a.get(n, Counter()) - b.get(n, Counter())).items(), key=repr)[:2]
+                    db = sorted((b.get(n, Counter()) - a.get(n, Counter())).items(), key=repr)[:2]
                     fail(f'C42:results-differ-from-serial:{obs}:{kind}:{mode}',
-                         f'{n}: only serial {da} / only workers={w} {db}')
+                         f'{n}: only serial {da} / only workers={w} {db}', sch)
                     break
     if len(ctx.samples) < 2:
         ctx.sample({'files': rel, 'kinds': [f['kind'] + (':' + f['broken'] if f['kind'] == 'broken' else '') for f in files],
-                    'schedules': case['schedules'], 'overlap': case['overlap']})
+                    'schedules': case['schedules'], 'overlap': bool(case.get('overlap')), 'line_hashes': line_hashes})
+
+
+def _bucket(n):
+    for lim in (0, 10, 50, 200):
+        if n <= lim:
+            return f'<={lim}'
+    return '>200'
 
 
 def run_shard(ctx):
-    n = ctx.scale(40, 500)
-    ctx.given(cases(ctx.thorough), check_case, n, label='filesets', shrink=not os.environ.get('LOKIVERIF_NOSHRINK'))
+    # 8 shards x 3 file sets x 3 schedules = 72 schedules in a quick run (bounded by count; the budget is a safety net
+    # for a loaded box, where one parallel lint_files call takes 10-30 s instead of ~1 s)
+    n = ctx.scale(24, 320)
+    # a Hypothesis shrink pass re-runs the whole search; with seconds per evaluation it is only affordable in the
+    # thorough tier (the stored failing case is already cut down to the one failing schedule)
+    shrink = ctx.thorough and not os.environ.get('LOKIVERIF_NOSHRINK')
+    ctx.given(cases(ctx.thorough, ctx.shard), check_case, n, label='filesets', shrink=shrink)
     ctx.note('OS-level interleavings are not enumerated; the harness owns the duration of each lint task only; '
              'files that fail to parse cannot be delayed (the DelayRule never runs on them)')
     ctx.note('class observed:reports-arrived-out-of-submission-order is a timing-dependent observation, not part of the verdict')
